@@ -738,6 +738,7 @@ pub struct Info {
     pub present: usize,
     pub absent: usize,
     pub nondefault_choices: usize,
+    pub map_form: bool,
 }
 
 fn dbg<T: Debug>(t: &T) -> String {
@@ -762,6 +763,11 @@ thread_local! {
     pub static SKIP_FROM_VALUE: std::cell::Cell<bool> = std::cell::Cell::new(false);
     /// set while an open known finding forbids zero-width array element constructors
     pub static AVOID_ZERO_WIDTH: std::cell::Cell<bool> = std::cell::Cell::new(false);
+    /// exploration switch (VERIF_C05_MAPFORM=1): also send list composites as described maps keyed by field
+    /// names. Off by default: such a form is not a spec-valid encoding of a list composite, and serde_amqp
+    /// selects list or map access from the type's declared encoding, so the implementation refuses it
+    /// ("Expecting a list") although the derive documentation says either form is taken (DESIGN 6.2, observations).
+    pub static MAP_FORM: std::cell::Cell<bool> = std::cell::Cell::new(std::env::var_os("VERIF_C05_MAPFORM").is_some());
 }
 
 fn choices(knobs: &[u8]) -> Choices {
@@ -776,7 +782,7 @@ where
 {
     let x = T::from_r(model)?;
     let (present, absent) = presence(model);
-    let mut info = Info { present, absent, nondefault_choices: 0 };
+    let mut info = Info { present, absent, nondefault_choices: 0, map_form: false };
     let bytes = serde_amqp::to_vec(&x).map_err(|e| format!("to_vec failed: {e} for {x:?}"))?;
     match mode {
         Mode::RoundTrip => {
@@ -813,6 +819,23 @@ where
             let d2: T = serde_amqp::from_reader(&vb[..]).map_err(|e| format!("valid encoding of {} rejected by from_reader: {e}; bytes={}", spec.name, hex(&vb)))?;
             if dbg(&d2) != dbg(&x) {
                 return Err(format!("from_reader decodes a different {}:\n expected {x:?}\n got      {d2:?}", spec.name));
+            }
+            // list-vs-map composite form: the same composite sent as a described map keyed by field names
+            if MAP_FORM.with(|m| m.get()) && knobs.first().map(|k| k % 4 == 2).unwrap_or(false) {
+                if let Some(mv) = spec::map_form(spec, model, knobs) {
+                    let mut ch = choices(knobs);
+                    let mb = refcodec::encode(&mv, &mut ch);
+                    info.nondefault_choices += 1;
+                    info.map_form = true;
+                    let d: T = serde_amqp::from_slice(&mb).map_err(|e| format!("map form of {} rejected by from_slice: {e}\n model={mv:?}\n bytes={}", spec.name, hex(&mb)))?;
+                    if dbg(&d) != dbg(&x) {
+                        return Err(format!("map form decodes to a different {}:\n expected {x:?}\n got      {d:?}\n bytes={}", spec.name, hex(&mb)));
+                    }
+                    let d2: T = serde_amqp::from_reader(&mb[..]).map_err(|e| format!("map form of {} rejected by from_reader: {e}; bytes={}", spec.name, hex(&mb)))?;
+                    if dbg(&d2) != dbg(&x) {
+                        return Err(format!("from_reader decodes the map form to a different {}:\n expected {x:?}\n got      {d2:?}", spec.name));
+                    }
+                }
             }
         }
         Mode::EntryPoints => {
@@ -941,6 +964,9 @@ pub fn run_typed_case(mode: Mode, c: &TypedCase, obs: &mut Obs) -> Result<(), St
             return Err(format!("[{}] panic: {}", k.name, p.join(" | ")));
         }
     };
+    if info.map_form {
+        obs.class("map-form");
+    }
     let nontrivial = match mode {
         Mode::RefToImpl => info.nondefault_choices > 0,
         _ => (info.present >= 1 && info.absent >= 1) || k.spec.fields.len() <= 1,
@@ -972,7 +998,7 @@ use fe2o3_amqp_types::messaging::message::__private::{Deserializable, Serializab
 
 pub fn check_message(mode: Mode, sections: &[RValue], knobs: &[u8]) -> Result<Info, String> {
     let x: Msg = message_from_sections(sections)?;
-    let mut info = Info { present: sections.len(), absent: 7usize.saturating_sub(sections.len()), nondefault_choices: 0 };
+    let mut info = Info { present: sections.len(), absent: 7usize.saturating_sub(sections.len()), nondefault_choices: 0, map_form: false };
     let bytes = serde_amqp::to_vec(&Serializable(&x)).map_err(|e| format!("to_vec failed: {e} for {x:?}"))?;
     match mode {
         Mode::RoundTrip => {
